@@ -68,11 +68,16 @@ class Runner:
     def __init__(self):
         self.pkg = pyside.Package()
 
-    def ev_structure(self, j, cls, root):
+    def ev_structure(self, j, cls, root, live=None):
+        """live: hand the converter this Python object (what unstructure() returned, untouched) instead of decode(j);
+        j stays the JSON it serialises to."""
         ev = {"e": "Structure", "j": j, "reqcls": cls.__name__}
-        payload = decode(j)
-        if root["kind"] == "alias":
-            payload = {"value": payload}
+        if live is not None:
+            payload = live
+        else:
+            payload = decode(j)
+            if root["kind"] == "alias":
+                payload = {"value": payload}
         try:
             obj = self.pkg.conv.structure(payload, cls)
         except BaseException as e:                 # noqa: BLE001 - every outcome is an observation
@@ -197,14 +202,16 @@ class Runner:
 
     def round_trip_tail(self, events, obj, cls, root):
         """Unstructure -> Structure(output) -> Unstructure, stopping at the first failure."""
-        ev, w = self.ev_unstructure(obj, cls, root)
+        # the output is structured again AS IT WAS RETURNED (no JSON dump / load in between: an application may pass it on
+        # inside the process), j2 being what it serialises to
+        ev, live = self.ev_unstructure(obj, cls, root, raw=True)
         events.append(ev)
         if not ev["ok"]:
             return
         j2 = ev["w"]
         if _has_opaque(j2):
             return
-        ev2, obj2 = self.ev_structure(j2, cls, root)
+        ev2, obj2 = self.ev_structure(j2, cls, root, live=live)
         events.append(ev2)
         if not ev2["ok"]:
             return
